@@ -59,12 +59,14 @@ META = {
         "parameters and helpers); an inventory link's refuri is computed from the inventory match (assumed, recognised by role: result of get_inventory_matches or an InvMatch parameter); a destination that receives only one part of a split href must have the remainder stored on the same node (download_reference excepted); image alt is "
         "the text of the image token's children, agrees per token type with markdown-it's reference renderInlineAsText (content / recursion / constant; any other contribution, e.g. an attribute that markdown-it only fills at HTML render time, is a disagreement) and visits nested inline nodes in source order (recursion or an "
         "order-preserving work list); the ordered-list start reaches the node for every legal start including 0 (decision table of the guards and the stored value), copy_attributes never "
-        "tests the truthiness of a value it copies; the code language derives from token.info and is its first whitespace-delimited word (cut with str.split on any whitespace, as markdown-it's fence renderer does, not at one separator character); "
+        "tests the truthiness of a value it copies; the code language derives from token.info, is computed from the unescaped info string on every path (unescapeAll, as markdown-it's own fence renderer - a raw/unescaped state flow) and is its first whitespace-delimited word (cut with str.split on any whitespace, as markdown-it's fence renderer does, not at one separator character); "
         "a forward flow analysis of the percent-encoding state (attrGet/normalizeLink = encoded, normalizeLinkText = decoded) shows that no refuri/uri receives a decoded value on any path (an id_link refuri is a local target name, C09); "
         "html_to_nodes' convertibility gate and conversion loop range over every child of the parsed HTML (all-or-nothing conversion of a raw-HTML leaf); no output-format encoder (escapeHtml, html.escape ...) lies between the href/src and the stored destination; the fragments of the library lexer add up to the code text (the lexing may live in the highlighter or in a helper that is handed the text), checked as two facts read off the docutils/pygments sources: "
         "(1) pygments' default stripnl=True (docutils passes no options) must be switched off on the lexer on every path to the fragment loop, (2) the final newline that docutils' Lexer.merge strips must be put back, "
-        "(3) the joined fragments are compared with the text and the text is used as a single fragment on a mismatch (lexers are lossy in general). A refname / reftarget is a target name and must not be markdown-it's percent-encoded href. "
-        "Known findings on the current tree: render_link_url stores escapeHtml(uri) as refuri (R3); the final newline of highlighted code is not restored in the docutils back end (R3); a rubric heading is its own message node for note_implicit_target (R2 h). "
+        "(3) the joined fragments are compared with the text and the text is used as a single fragment on a mismatch (lexers are lossy in general). A refname / reftarget is a target name and must not be markdown-it's percent-encoded href; within a family (footnotes / all other names) the sites that register names and the sites that store a refname agree on the normal form "
+        "(nodes.fully_normalize_name on both sides or on neither). The alt text gets the content of every content-bearing inline leaf (text, code_inline: read off which RendererHTML rules emit escapeHtml(token.content)) and a line break for soft and hard breaks. "
+        "Sphinx' ImageCollector reads the uri of a local image as a file path without decoding (read from its source) while render_image stores the percent-encoded src also for Sphinx: reported as a known finding. "
+        "Known findings on the current tree: render_link_url stores escapeHtml(uri) as refuri (R3); the final newline of highlighted code is not restored in the docutils back end (R3); the image uri is percent-encoded in the Sphinx back end (R3). "
         "R4: current_node is rebound only by setup_render, by the save/set/restore halves of current_node_context (append before the rebind) and as the final statement of the section branch of "
         "render_heading or of a helper that render_heading calls last; += on it appends in place (docutils Element.__iadd__). "
         "R5 back ends: renderer subclasses override only link/math methods and add no handler; create_md_parser's renderer argument reaches only MarkdownIt(renderer_cls=...) and no condition; both "
@@ -2667,9 +2669,22 @@ def _alt_contributions(fi: FunctionInfo) -> tuple[dict[str, tuple], tuple]:
     node = body[0]
     while True:
         t = node.test
-        if not (isinstance(t, ast.Compare) and len(t.ops) == 1 and isinstance(t.ops[0], ast.Eq) and unparse(t.left) == f"{var}.type" and isinstance(t.comparators[0], ast.Constant)):
+        types_here: list[str] | None = None
+        if isinstance(t, ast.Compare) and len(t.ops) == 1 and unparse(t.left) == f"{var}.type":
+            c0 = t.comparators[0]
+            if isinstance(t.ops[0], ast.Eq) and isinstance(c0, ast.Constant):
+                types_here = [c0.value]
+            elif isinstance(t.ops[0], ast.In) and isinstance(c0, (ast.Tuple, ast.List, ast.Set)) and all(isinstance(x, ast.Constant) for x in c0.elts):
+                types_here = [x.value for x in c0.elts]
+        elif isinstance(t, ast.BoolOp) and isinstance(t.op, ast.Or) and all(isinstance(v, ast.Compare) and len(v.ops) == 1 and isinstance(v.ops[0], ast.Eq) and unparse(v.left) == f"{var}.type" and isinstance(v.comparators[0], ast.Constant) for v in t.values):
+            types_here = [v.comparators[0].value for v in t.values]
+        if types_here is None:
             raise Unsupported(f"{fi.fq}: branch test `{short(t, 40)}` not understood")
-        table[t.comparators[0].value] = contribution(node.body)
+        contrib = contribution(node.body)
+        for ty in types_here:
+            table[ty] = contrib
+        if False:
+            pass
         if len(node.orelse) == 1 and isinstance(node.orelse[0], ast.If):
             node = node.orelse[0]
             continue
@@ -2706,6 +2721,18 @@ def _alt_text_agreement(corpus: Corpus, rep: Report, tt: TokenTypes) -> None:
     mt = {t: (("recurse",) if c[0] == "recurse-out-of-order" else c) for t, c in mt.items()}
     if md[0] == "recurse-out-of-order":
         md = ("recurse",)
+    # CommonMark: the alt text is the plain string content of the description. markdown-it's renderInlineAsText is known
+    # to forget childless leaves; what such a leaf contributes to *text* is read off its HTML rule in RendererHTML:
+    # a rule that emits escapeHtml(<token>.content) carries content, the break rules carry a line break.
+    for t in ("text", "code_inline", "softbreak", "hardbreak"):
+        rule_fn = ref_mod.functions.get(f"RendererHTML.{t}")
+        if rule_fn is None or t in rt:
+            continue
+        emits_content = any(isinstance(c, ast.Call) and (dotted(c.func) or "").endswith("escapeHtml") and c.args and unparse(c.args[0]).endswith(".content") for c in rule_fn.local_nodes())
+        if emits_content:
+            rt[t] = ("content",)
+        elif t.endswith("break"):
+            rt[t] = ("const", "\n")
     for t in sorted(rt):
         want = rt[t]
         got = mt.get(t, md)
@@ -3258,11 +3285,235 @@ def _decoded_destination(rep: Report, an: "Nesting", fi: FunctionInfo, key_name:
     return reported
 
 
+def _forward_states(fi: FunctionInfo, seeds: list[str], state_of) -> dict[object, dict[str, frozenset]]:
+    """Forward may-analysis over the CFG: for the locals the seed names are made of, the set of abstract states each can
+    have at the entry of every CFG node. ``state_of(expr, env) -> set`` gives the state of an assigned expression."""
+    cfg = get_cfg(fi)
+    tracked: set[str] = set()
+    wn = list(seeds)
+    while wn:
+        nm = wn.pop()
+        if nm in tracked:
+            continue
+        tracked.add(nm)
+        for d in _all_defs(fi, nm):
+            wn.extend(x.id for x in ast.walk(d) if isinstance(x, ast.Name))
+    inn: dict[object, dict[str, frozenset]] = {"ENTRY": {}}
+    outs: dict[object, dict[str, frozenset]] = {}
+    work = ["ENTRY"]
+    while work:
+        n = work.pop()
+        env = {k: set(v) for k, v in inn.get(n, {}).items()}
+        if isinstance(n, ast.stmt):
+            for nm in tracked:
+                b = _binds(n, nm)
+                if b is False:
+                    continue
+                if b is True or (isinstance(n, ast.Assign) and isinstance(n.targets[0], (ast.Tuple, ast.List)) and not isinstance(b, ast.Call)):
+                    env[nm] = {"other"}
+                else:
+                    env[nm] = set(state_of(b, env, fi))
+        new = {k: frozenset(v) for k, v in env.items()}
+        if n in outs and outs[n] == new:
+            continue
+        outs[n] = new
+        for sx in cfg.succ.get(n, []):
+            cur = inn.get(sx, {})
+            merged = {k: frozenset(set(cur.get(k, frozenset())) | set(new.get(k, frozenset()))) for k in set(cur) | set(new)}
+            if merged != cur or sx not in inn:
+                inn[sx] = merged
+                work.append(sx)
+    return inn
+
+
+RAW, DONE = "raw", "done"
+
+
+def _transform_states(fi: FunctionInfo, an: "Nesting", at: ast.AST, value: ast.expr, is_raw_source, is_transform, depth: int = 0, callers_in: set[str] | None = None) -> set[str]:
+    """States of ``value`` at statement ``at``: RAW if it (may) derive from the raw source without passing the required
+    transformation, DONE if it passed it, 'other' if it does not come from the source at all. Package helpers that are
+    handed the token / a string parameter are followed one level (return values / call sites)."""
+    toks = set(_tok_params(fi))
+
+    def state_of(e: ast.AST, env, f=fi) -> set[str]:
+        if is_raw_source(e, f):
+            return {RAW}
+        if isinstance(e, ast.Call):
+            if is_transform(e, f):
+                return {DONE}  # the output of the transformation is transformed, whatever went in
+            m = an.resolve_callee(e, f) if depth < 2 else None
+            if m is not None and not m.is_lambda and any(isinstance(a, ast.Name) and a.id in toks for a in e.args) and _tok_params(m):
+                out: set[str] = set()
+                for r in m.local_nodes():
+                    if isinstance(r, ast.Return) and r.value is not None:
+                        out |= _transform_states(m, an, r, r.value, is_raw_source, is_transform, depth + 1, callers_in)
+                return out or {"other"}
+            out = set()
+            for a in list(e.args) + [k.value for k in e.keywords] + ([e.func.value] if isinstance(e.func, ast.Attribute) else []):
+                out |= state_of(a, env, f)
+            return out or {"other"}
+        if isinstance(e, ast.Name):
+            if e.id in env:
+                return set(env[e.id])
+            if e.id in f.params and e.id not in ("self", "cls") and e.id not in toks and depth < 2:
+                out = set()
+                for g in an.scope():
+                    if callers_in is not None and g.fq not in callers_in:
+                        continue  # a helper shared with other handlers: only the call sites of the handler under judgement count
+                    for c in g.local_nodes():
+                        if isinstance(c, ast.Call) and f in an.call_targets_safe(c, g):
+                            for a in an._args_for_param(c, f, e.id):
+                                out |= _transform_states(g, an, c, a, is_raw_source, is_transform, depth + 1, callers_in)
+                return out or {"other"}
+            return {"other"}
+        if isinstance(e, ast.Constant):
+            return {"other"}
+        if isinstance(e, ast.IfExp):
+            return state_of(e.body, env, f) | state_of(e.orelse, env, f)
+        out = set()
+        for c in ast.iter_child_nodes(e):
+            if isinstance(c, ast.expr):
+                out |= state_of(c, env, f)
+        return out or {"other"}
+
+    names = [n.id for n in ast.walk(value) if isinstance(n, ast.Name)]
+    inn = _forward_states(fi, names, state_of)
+    cfg = get_cfg(fi)
+    env_at = {k: set(v) for k, v in inn.get(cfg.stmt_of(at), {}).items()}
+    return state_of(value, env_at)
+
+
+def _info_unescaped(corpus: Corpus, rep: Report, an: "Nesting", f: FunctionInfo, holder: FunctionInfo, call: ast.Call, lx: ast.expr, key: str) -> None:
+    """Backslash escapes and character references are active in a fence's info string and markdown-it leaves resolving them
+    to the renderer (RendererHTML.fence applies unescapeAll to token.info - read from its source): the language handed to
+    the highlighter must, on every path, be computed from the unescaped info string."""
+    ref = corpus.sibling("markdown_it/renderer.py").functions.get("RendererHTML.fence")
+    if ref is None or not any(isinstance(c, ast.Call) and (dotted(c.func) or "").endswith("unescapeAll") and "info" in unparse(c) for c in ref.local_nodes()):
+        rep.ok("C02.R3", key, holder.module.site(call), "the installed markdown-it does not unescape the info string in its own fence renderer")
+        return
+    st = _transform_states(
+        holder, an, call, lx,
+        lambda e, fn: isinstance(e, ast.Attribute) and e.attr == "info" and isinstance(e.value, ast.Name) and e.value.id in _tok_params(fn),
+        lambda e, fn: (dotted(e.func) or "").endswith("unescapeAll"),
+        callers_in={h.fq for h, _t in _token_helpers(an, f, _tok_param(f))},
+    )
+    if RAW in st:
+        rep.violation("C02.R3", key, holder.module.site(call), f"on some path the language handed to the highlighter (`{short(lx, 30)}`) is cut out of the raw token.info: backslash escapes and character references "
+                      "of the info string are not resolved (markdown-it's fence renderer applies unescapeAll), so '```c&#43;&#43;' / '``` foo\\+bar' get the language 'c&#43;&#43;' / 'foo\\+bar' instead of 'c++' / 'foo+bar'")
+    else:
+        rep.ok("C02.R3", key, holder.module.site(call), "computed from unescapeAll(token.info) on every path")
+
+
+def _name_normal_forms(corpus: Corpus, rep: Report, an: "Nesting") -> None:
+    """docutils resolves a ``refname`` by looking it up among the names under which targets were registered. Within one
+    family (footnotes / everything else) the sites that register names (``node["names"]``) and the sites that store a
+    ``refname`` must agree on the normal form: if the names are stored as nodes.fully_normalize_name(...), so must the
+    refname be on every path - and vice versa."""
+    is_norm = lambda e, fn: (dotted(e.func) or "").split(".")[-1] in ("fully_normalize_name", "whitespace_normalize_name")  # noqa: E731
+    never_raw = lambda e, fn: False  # noqa: E731
+    writers: dict[str, list] = {"footnote": [], "general": []}
+    readers: dict[str, list] = {"footnote": [], "general": []}
+    for fi in an.scope():
+        if fi.cls is None or fi.cls.fq != an.k.fq:
+            continue
+        for st in sorted((x for x in fi.local_nodes() if isinstance(x, ast.stmt)), key=lambda x: x.lineno):
+            val = recv = None
+            kind = None
+            if isinstance(st, ast.Expr) and isinstance(st.value, ast.Call) and isinstance(st.value.func, ast.Attribute) and st.value.func.attr == "append" and isinstance(st.value.func.value, ast.Subscript) and isinstance(st.value.func.value.slice, ast.Constant) and st.value.func.value.slice.value == "names" and st.value.args:
+                val, recv, kind = st.value.args[0], st.value.func.value.value, "w"
+            elif isinstance(st, ast.Assign) and len(st.targets) == 1 and isinstance(st.targets[0], ast.Subscript) and isinstance(st.targets[0].slice, ast.Constant) and st.targets[0].slice.value in ("names", "refname"):
+                recv = st.targets[0].value
+                if st.targets[0].slice.value == "refname":
+                    val, kind = st.value, "r"
+                elif isinstance(st.value, (ast.List, ast.Tuple)) and len(st.value.elts) == 1:
+                    val, kind = st.value.elts[0], "w"
+            if val is None or not isinstance(recv, ast.Name):
+                continue
+            classes = _node_classes_of(an, recv, fi) or set()
+            fam = "footnote" if classes and classes <= {"footnote", "footnote_reference"} else "general"
+            # the state: did the value pass a normaliser? every string that is not a constant counts as raw
+            st_set = _transform_states(fi, an, st, val, lambda e, fn: isinstance(e, ast.Attribute) and isinstance(e.value, ast.Name) and e.value.id in _tok_params(fn), is_norm)
+            (writers if kind == "w" else readers)[fam].append((fi, st, val, st_set))
+    for fam in ("general", "footnote"):
+        wforms = {("norm" if s_ == {DONE} else "raw" if DONE not in s_ else "mixed") for _f, _s, _v, s_ in writers[fam]}
+        for fi, st, val, s_ in readers[fam]:
+            k = f"{fi.fq}|refname uses the normal form under which {fam} names are registered"
+            form = "norm" if s_ == {DONE} else "raw" if DONE not in s_ else "mixed"
+            if not writers[fam]:
+                rep.listed("C02.R3", k, fi.module.site(st), "no registering site found in the render scope")
+            elif wforms == {form} and form != "mixed":
+                rep.ok("C02.R3", k, fi.module.site(st), f"{'nodes.fully_normalize_name(...)' if form == 'norm' else 'the label as written'} on both sides ({len(writers[fam])} registering site(s))")
+            else:
+                odd = [f"{wf.name}: `{short(wv, 30)}`" for wf, _ws, wv, ws_ in writers[fam] if ("norm" if ws_ == {DONE} else "raw" if DONE not in ws_ else "mixed") != "norm"]
+                rep.violation("C02.R3", k, fi.module.site(st), f"the refname `{short(val, 40)}` is {'normalised' if form == 'norm' else 'not normalised on every path'} while the names it is looked up in are registered "
+                              + (f"un-normalised at {'; '.join(odd)}" if odd and form == "norm" else "as nodes.fully_normalize_name(...) (lower case, single spaces)")
+                              + ": '(My-Target)=' + '[text](My-Target)' ends as 'Unknown target name' in the docutils back end while Sphinx resolves it")
+
+
+def _sphinx_image_path(corpus: Corpus, rep: Report) -> None:
+    """Sphinx' ImageCollector reads node['uri'] of a local image as a file path and hands it to env.relfn2path without
+    percent-decoding (read from its source); SphinxRenderer decodes the destinations of links to files but inherits
+    render_image, which stores markdown-it's percent-encoded src."""
+    try:
+        col = corpus.sibling("sphinx/environment/collectors/asset.py")
+    except AnchorMissing:
+        return
+    pd = col.functions.get("ImageCollector.process_doc")
+    if pd is None:
+        return
+    reads_as_path = any(isinstance(c, ast.Call) and isinstance(c.func, ast.Attribute) and c.func.attr == "relfn2path" for c in pd.local_nodes()) and not any(
+        isinstance(c, ast.Call) and (dotted(c.func) or "").split(".")[-1] in ("unquote", "url2pathname") for c in pd.local_nodes())
+    base_ci = corpus.cls(RENDERER)
+    img = corpus.lookup_method(base_ci, "render_image")
+    k = f"{img.fq}|uri of a local image is a file path for Sphinx"
+    subs = corpus.subclasses(base_ci)
+    overridden = all("render_image" in sc.methods for sc in subs) if subs else False
+    decodes = any(isinstance(c, ast.Call) and (dotted(c.func) or "").split(".")[-1] in ("unquote", "normalizeLinkText") for c in img.local_nodes())
+    if not reads_as_path:
+        rep.ok("C02.R3", k, img.site(), "the installed Sphinx decodes the uri itself")
+    elif overridden or decodes:
+        rep.ok("C02.R3", k, img.site(), "the Sphinx back end decodes the source of a local image")
+    else:
+        rep.violation("C02.R3", k, img.site(), "render_image stores markdown-it's percent-encoded src as uri in the Sphinx back end too, where ImageCollector reads the uri of a local image as a file path without decoding it: "
+                      "'![one](é.png)' gives uri '%C3%A9.png' and 'image file not readable', while links to the same file are decoded (SphinxRenderer._decode_destination) and the docutils back end resolves the URI reference")
+
+
+def _html_work_function(corpus: Corpus, an: "Nesting") -> FunctionInfo:
+    """html_to_nodes, or the module-level helper it hands its text to that holds the guarded parse step."""
+    top = corpus.func("mdit_to_docutils.html_to_nodes:html_to_nodes")
+
+    def has_parse(fn: FunctionInfo) -> bool:
+        tp_ = fn.params[0] if fn.params else None
+        return any(
+            isinstance(n, ast.Assign) and len(n.targets) == 1 and isinstance(n.targets[0], ast.Name) and isinstance(n.value, ast.Call) and any(isinstance(a, ast.Try) for a in ancestors(n))
+            and any(isinstance(c, ast.Call) and any(isinstance(x, ast.Name) and x.id == tp_ for x in c.args) for c in ast.walk(n.value))
+            and not any(isinstance(c, ast.Call) and an.resolve_callee(c, fn) is not None and an.resolve_callee(c, fn).module is fn.module for c in ast.walk(n.value))
+            for n in fn.local_nodes()
+        )
+
+    seen: set[str] = set()
+    work = [(top, 0)]
+    while work:
+        fn, d = work.pop(0)
+        if fn.fq in seen:
+            continue
+        seen.add(fn.fq)
+        if has_parse(fn):
+            return fn
+        if d < 2 and fn.params:
+            for c in fn.local_nodes():
+                if isinstance(c, ast.Call) and isinstance(c.func, ast.Name) and any(isinstance(a, ast.Name) and a.id == fn.params[0] for a in c.args):
+                    m = an.resolve_callee(c, fn)
+                    if m is not None and not m.is_lambda and m.module is fn.module:
+                        work.append((m, d + 1))
+    raise Unsupported("html_to_nodes: the guarded parse step `<root> = <parse>(text)` was not found in it or in a helper it hands the text to")
+
+
 def _html_all_or_nothing(corpus: Corpus, rep: Report, an: "Nesting") -> None:
     """html_to_nodes replaces an HTML leaf by directive output only if *every* child of the parsed HTML is convertible;
     otherwise the text goes out verbatim as one raw node. Both the convertibility gate and the conversion loop must
     therefore range over all children of the parse result - a filtered subset silently drops what was filtered out."""
-    f = corpus.func("mdit_to_docutils.html_to_nodes:html_to_nodes")
+    f = _html_work_function(corpus, an)
     rep.saw_function(f.fq)
     # the parse result: the local that is computed from the text (tokenize_html(text), <tokenizer>.feed(text) ...) inside the
     # guarded parse step and that the conversion ranges over
@@ -3586,6 +3837,8 @@ def r3_verbatim_leaves(corpus: Corpus, rep: Report, tier: str):
             rep.violation("C02.R3", k, b.site(alts[0]), f"`alt` is `{short(v, 50)}`, not the text of the image token's children")
     _alt_text_agreement(corpus, rep, tt=_token_types(corpus, rep))
     _html_all_or_nothing(corpus, rep, an)
+    _name_normal_forms(corpus, rep, an)
+    _sphinx_image_path(corpus, rep)
     _list_start(corpus, rep, an)
     _generic_copy_not_truthy(corpus, rep)
     for q, field in (("DocutilsRenderer.render_fence", "info"), ("DocutilsRenderer.render_code_block", "info")):
@@ -3600,6 +3853,8 @@ def r3_verbatim_leaves(corpus: Corpus, rep: Report, tier: str):
                     if lx is not None and _reaches(lx, holder, an, _field_source(field)):
                         rep.ok("C02.R3", k, holder.module.site(c), f"lexer name `{short(lx, 30)}` derives from token.info")
                         _language_word(corpus, rep, an, f, holder, lx, f"{f.fq}|language is the first whitespace-delimited word of token.info" + ("" if n_lang == 1 else f"#{n_lang}"), holder.module.site(c))
+                        if f.name == "render_fence":
+                            _info_unescaped(corpus, rep, an, f, holder, c, lx, f"{f.fq}|language is computed from the unescaped info string" + ("" if n_lang == 1 else f"#{n_lang}"))
                     else:
                         rep.violation("C02.R3", k, holder.module.site(c), f"the language handed to the highlighter (`{short(lx, 30) if lx is not None else 'none'}`) does not derive from the info string of the code token")
         if not n_lang:
@@ -4449,12 +4704,50 @@ def mutants(corpus: Corpus):
 
     # revert of dd4e50e (softbreak kept in alt text)
     f = base.func(R + "renderInlineAsText")
-    br = find_node(f, lambda n: isinstance(n, ast.If) and isinstance(n.test, ast.Compare) and any(isinstance(c, ast.Constant) and c.value == "softbreak" for c in n.test.comparators))
+    def _type_branch(fn, ty):
+        # the if/elif of the type dispatch that covers token type `ty` (== "ty" or in (..., "ty", ...))
+        return find_node(fn, lambda n: isinstance(n, ast.If) and isinstance(n.test, ast.Compare) and unparse(n.test.left).endswith(".type") and any(
+            (isinstance(c, ast.Constant) and c.value == ty) or (isinstance(c, (ast.Tuple, ast.List, ast.Set)) and any(isinstance(x, ast.Constant) and x.value == ty for x in c.elts)) for c in n.test.comparators))
+
+    br = _type_branch(f, "softbreak")
     if br is not None:
         lines = base.src.splitlines(keepends=True)
         out.append(Mutant("c02-revert-alt-softbreak-fix", "C02.R3", base.rel, "".join(lines[: br.lineno - 1] + lines[br.body[-1].end_lineno :]), expect="`softbreak` tokens", canary=False))
+        c0 = br.test.comparators[0]
+        if isinstance(c0, (ast.Tuple, ast.List, ast.Set)):
+            # partial weakening of c22b160: the hard break is dropped from the break types again
+            add("c02-alt-hardbreak-dropped", "C02.R3", base, br.test, f'{unparse(br.test.left)} == "softbreak"', "`hardbreak` tokens")
     else:
         out.append(("c02-revert-alt-softbreak-fix", "softbreak branch not found"))
+    # revert / weakening of c22b160: inline code contributes nothing / something else than its content to the alt text
+    br = _type_branch(f, "code_inline")
+    if br is not None:
+        lines = base.src.splitlines(keepends=True)
+        out.append(Mutant("c02-revert-alt-code-inline", "C02.R3", base.rel, "".join(lines[: br.lineno - 1] + lines[br.body[-1].end_lineno :]), expect="`code_inline` tokens"))
+        aug = find_node(f, lambda n: isinstance(n, ast.AugAssign) and n in br.body)
+        add("c02-alt-code-inline-contributes-markup", "C02.R3", base, aug.value if aug else None, "token.markup", "`code_inline` tokens")
+    else:
+        out.append(("c02-revert-alt-code-inline", "code_inline branch not found"))
+    # revert / weakening of c309c95: the language is cut out of the raw info string
+    f = base.func(R + "render_fence")
+    un = find_node(f, lambda n: isinstance(n, ast.Call) and (dotted(n.func) or "").endswith("unescapeAll"))
+    if un is not None and un.args:
+        add("c02-revert-info-unescaped", "C02.R3", base, un, "(" + _seg(base, un.args[0]) + ")", "unescaped info string")
+        add("c02-info-unescaped-only-with-backslash", "C02.R3", base, un, f'({_seg(base, un)} if "\\\\" in ({_seg(base, un.args[0])}) else ({_seg(base, un.args[0])}))', "unescaped info string")
+    else:
+        out.append(("c02-revert-info-unescaped", "unescapeAll call not found in render_fence"))
+    # revert / weakening of 14858ce: refname and registered names disagree on the normal form
+    f = base.func(R + "render_link_unknown")
+    st = find_node(f, lambda n: isinstance(n, ast.Assign) and unparse(n.targets[0]) == "ref_node['refname']")
+    if st is not None and isinstance(st.value, ast.Call) and (dotted(st.value.func) or "").endswith("fully_normalize_name"):
+        inner = _seg(base, st.value.args[0])
+        add("c02-revert-refname-normalised", "C02.R3", base, st.value, inner, "normal form")
+        add("c02-refname-normalised-only-with-spaces", "C02.R3", base, st.value, f'(nodes.fully_normalize_name({inner}) if " " in {inner} else {inner})', "normal form")
+    else:
+        out.append(("c02-revert-refname-normalised", "normalised refname store not found"))
+    f = base.func(R + "render_myst_target")
+    nm = find_node(f, lambda n: isinstance(n, ast.Assign) and isinstance(n.value, ast.Call) and (dotted(n.value.func) or "").endswith("fully_normalize_name"))
+    add("c02-target-name-registered-unnormalised", "C02.R3", base, nm.value if nm else None, _seg(base, nm.value.args[0]) if nm else "", "normal form")
     # class: attribute value stored under a truthiness test / with an `or` default where 0 is legal
     f = base.func(R + "render_ordered_list")
     ca = find_node(f, lambda n: isinstance(n, ast.Expr) and isinstance(n.value, ast.Call) and _is_self_call(n.value, "copy_attributes"))
@@ -4613,7 +4906,7 @@ def mutants(corpus: Corpus):
     add("c02-image-uri-decoded", "C02.R3", base, st.value if st else None, "self.md.normalizeLinkText(destination)", "uri stored percent-decoded")
     # class: the HTML conversion looks at a filtered subset of the parsed children
     h2n = corpus.mod("mdit_to_docutils.html_to_nodes")
-    f = h2n.func("html_to_nodes")
+    f = _html_work_function(corpus, _nesting(corpus, corpus.cls(RENDERER)))
     gate = find_node(f, lambda n: isinstance(n, ast.Call) and dotted(n.func) == "all" and n.args and isinstance(n.args[0], ast.GeneratorExp))
     conv = find_node(f, lambda n: isinstance(n, ast.For) and any(isinstance(c, ast.Call) and isinstance(c.func, ast.Attribute) and c.func.attr == "run_directive" for c in ast.walk(n)))
     if gate is not None and conv is not None:
